@@ -60,6 +60,10 @@ type System struct {
 	New      func() Instance
 	MaxDepth int  // depth bound (with merging: safety bound)
 	Merge    bool // use Key() to merge states
+	// Shallow: a merged system is additionally searched WITHOUT merging (every history, so no assumption about the
+	// key is needed) to the largest depth whose history count fits this transition budget; 0 = default
+	// (100k quick, 3M thorough), negative = off.
+	Shallow int64
 }
 
 // Violation of a system.
@@ -348,7 +352,46 @@ func Part(name string, systems func(c *cli.Ctx) []*System) *cli.Part {
 				}
 				detail = append(detail, map[string]any{"system": sys.Name, "states": r.States, "transitions": r.Transitions, "histories": r.Histories,
 					"max_depth": r.MaxDepth, "merge": sys.Merge, "fixpoint": r.Fixpoint, "complete": r.Complete, "alphabet": len(sys.Alphabet), "wall_s": time.Since(t0).Seconds()})
-				for _, v := range r.Violations {
+				viols := r.Violations
+				if sys.Merge && sys.Shallow >= 0 && len(sys.Alphabet) > 1 {
+					budget := sys.Shallow
+					if budget == 0 {
+						budget = 100_000
+						if c.Thorough() {
+							budget = 3_000_000
+						}
+					}
+					d, n := 0, int64(1)
+					for n*int64(len(sys.Alphabet)) <= budget && d < sys.MaxDepth {
+						n *= int64(len(sys.Alphabet))
+						d++
+					}
+					if d >= 2 {
+						t1 := time.Now()
+						flat := *sys
+						flat.Merge, flat.MaxDepth = false, d
+						r2 := Explore(&flat, c.Deadline, c.Shard, c.NShards)
+						pr.States += r2.States
+						pr.Transitions += r2.Transitions
+						pr.Traces += r2.Histories
+						pr.Evaluations += r2.Transitions
+						if !r2.Complete {
+							pr.Exhaustive = false
+						}
+						detail = append(detail, map[string]any{"system": sys.Name + " (every history, unmerged)", "states": r2.States, "transitions": r2.Transitions, "histories": r2.Histories,
+							"max_depth": r2.MaxDepth, "merge": false, "complete": r2.Complete, "alphabet": len(sys.Alphabet), "wall_s": time.Since(t1).Seconds()})
+						have := map[string]bool{}
+						for _, v := range viols {
+							have[v.Class] = true
+						}
+						for _, v := range r2.Violations {
+							if !have[v.Class] {
+								viols = append(viols, v)
+							}
+						}
+					}
+				}
+				for _, v := range viols {
 					raw, _ := json.Marshal(v)
 					pr.Violations = append(pr.Violations, &cli.Violation{Part: name, Engine: "H", Signature: sys.Name + "|" + v.Class,
 						Message: fmt.Sprintf("%s\n  history: %s", v.Detail, strings.Join(v.History, " ; ")), Replay: raw})
